@@ -837,6 +837,22 @@ def rule_point_vectors_filled(chk, prog):
         raise AnalysisBroken("sized Point vectors not found (%d): matcher out of date" % n)
 
 
+def rule_router_dtor_queued(chk, prog):
+    r = chk.rule("ROUTER-DTOR-QUEUED", "an object created since the last processTransaction() (new ShapeRef / JunctionRef / ConnRef: their constructors "
+                 "queue a ShapeAdd / JunctionAdd / ConnChange action) is known to the router only through its action list until the transaction "
+                 "runs, and its destructor refuses to be called by anybody but the router: Router::~Router therefore walks actionList and deletes "
+                 "the objects of pending additions, besides draining connRefs, m_obstacles and clusterRefs", floor=1)
+    fn = prog.fn("Avoid::Router::~Router")
+    mentions = [n for n in fn.nodes() if n.get("k") == "MemberExpr" and n.get("ref") == "Avoid::Router::actionList"]
+    dels = [n for n in fn.nodes() if n.get("k") == "CXXDeleteExpr"]
+    in_loop = [m for m in mentions if any(a.get("k") in ("ForStmt", "WhileStmt", "CXXForRangeStmt") for a in fn.ancestors(m))]
+    r.count()
+    ok = bool(in_loop) and len(dels) >= 3
+    (r.ok if ok else r.bad)("objects of queued additions", fn.where(), "" if ok else
+                            "Router::~Router never looks at actionList: a shape, junction or connector that was created but not yet processed is leaked "
+                            "(and cannot be freed by its creator, whose `delete` aborts)")
+
+
 _VERTEX_NEVER_LISTED = {
     "Avoid::delete_vertex::operator()": "the spanning-tree builder's extraVertices are created with `new VertInf` and never handed to VertInfList::addVertex",
     "Avoid::Obstacle::~Obstacle": "asserts m_active == false: Obstacle::makeInactive has already taken the polygon's vertices off the router's list",
@@ -1104,6 +1120,7 @@ def run(chk):
     chk.guard(rule_connend_deref, chk, prog)
     chk.guard(rule_queued_ends_detached, chk, prog)
     chk.guard(rule_delete_api, chk, prog)
+    chk.guard(rule_router_dtor_queued, chk, prog)
     chk.guard(rule_point_vectors_filled, chk, prog)
     chk.guard(rule_set_keys_frozen, chk, prog)
     chk.guard(rule_stale_solver_pointer, chk, prog)
